@@ -32,7 +32,9 @@ pub(crate) fn as_f64(value: &Value, lossy: bool) -> Option<f64> {
     macro_rules! checked {
         ($expr:expr, $ty:ty) => {{
             let rv = $expr as f64;
-            return if lossy || rv as $ty == $expr {
+            // the cast back saturates, so the type's maximum (which is never exactly
+            // representable) would otherwise pass for the power of two above it
+            return if lossy || (rv < <$ty>::MAX as f64 && rv as $ty == $expr) {
                 Some(rv)
             } else {
                 None
